@@ -586,25 +586,40 @@ int cmdProbe(int argc, char** argv) {
 							}
 							// second level: one later field on top of each first-level setting
 							size_t budget = 4000;
+							std::vector<std::vector<std::pair<int, long long>>> selectors2; // selector values on top of a first-level setting
 							for (auto& f : level1) {
 								size_t n2 = std::min<size_t>(f.kinds.size(), 40);
 								for (size_t k = size_t(f.ov[0].first) + 1; k < n2 && budget; k++) {
 									if (!sweepable(f.kinds[k])) continue;
+									std::vector<std::pair<long long, SynthInfo>> got;
 									for (auto x : valuesOf(f.kinds[k])) {
 										if (!budget) break;
 										budget--;
 										SynthInfo si;
 										auto ov = f.ov;
 										ov.emplace_back(int(k), x);
-										if (!probe(ov, si)) continue;
+										if (probe(ov, si)) got.emplace_back(x, si);
+									}
+									bool countLike = false;
+									{
+										std::map<long long, size_t> len;
+										for (auto& g : got) len[g.first] = g.second.ncodes;
+										if (len.count(1) && len.count(2) && len.count(3) && len.count(4))
+											countLike = len[1] < len[2] && len[2] < len[3] && len[3] < len[4];
+									}
+									for (auto& g : got) {
+										SynthInfo& si = g.second;
+										auto ov = f.ov;
+										ov.emplace_back(int(k), g.first);
 										bool fresh = seen.insert(si.tape).second;
+										bool freshExact = !countLike && seenExact.insert(si.exact).second;
 										if (si.roundTrip == 1 && unstable < 40) {
 											unstable++;
 											emit(ov, "block-level round trip unstable");
 											continue;
 										}
-										if (!fresh) continue;
-										cands.push_back(ov);
+										if (fresh) cands.push_back(ov);
+										else if (freshExact) selectors2.push_back(ov);
 									}
 								}
 							}
@@ -621,6 +636,11 @@ int cmdProbe(int argc, char** argv) {
 								return cnt;
 							};
 							size_t usedBySel = spread(selectors, cap ? std::max<size_t>(1, cap / 2) : 0);
+							// (what the first-level selectors leave of their half goes to selector values of a second field)
+							size_t half = cap ? std::max<size_t>(1, cap / 2) : 0;
+							// (without a cap: at most 24 of those per type and version - there are very many)
+							if (!cap) spread(selectors2, 24);
+							else if (usedBySel < half) usedBySel += spread(selectors2, half - usedBySel);
 							spread(cands, cap ? (cap > usedBySel ? cap - usedBySel : 1) : 0);
 							(void) kept;
 							vi++;
